@@ -90,7 +90,7 @@ func checkC11(e *Engine, r *Report) {
 			ok2 := named[k.Val().ExactString()] || ign
 			r.Check("R6:state-classified#"+name, "R6 state classification", "syncWithNRI handles "+name+" in a case, or it is deliberately ignored", e.Pos(sw.Pos()), sw, ok2, why, false)
 		}
-		r.MinInstances("ContainerState constants", n, 6)
+		r.MinInstances("ContainerState constants", n, 3)
 		// created/running -> both lists; exited -> release list (see C09 for the list contents)
 		created, _ := sc.Lookup("ContainerStateCreated").(*types.Const)
 		running, _ := sc.Lookup("ContainerStateRunning").(*types.Const)
